@@ -111,6 +111,10 @@ def serializer_config(name):
         return SerializerConfig(ignore_default_attributes=True)
     if name == "schemaloc":
         return SerializerConfig(schema_location="urn:basic basic.xsd", no_namespace_schema_location="nons.xsd")
+    if name == "globalns":
+        from sim.pool import m_edge
+
+        return SerializerConfig(globalns=dict(m_edge.GLOBALNS))
     if name == "latin1":
         return SerializerConfig(encoding="ISO-8859-1", xml_version="1.1", indent="\t")
     raise KeyError(name)
@@ -244,7 +248,63 @@ class Op:
         return f"Op({self.name})"
 
 
-def execute(op, env, fault=None):
+def scribble(value, _seen=None, _depth=0):
+    """What a caller may do with a returned object afterwards: change its containers in place.
+    Returns the number of containers changed."""
+    import dataclasses
+    import enum
+
+    if _seen is None:
+        _seen = set()
+    if id(value) in _seen or _depth > 40 or isinstance(value, (str, bytes, int, float, type, enum.Enum)) or value is None:
+        return 0
+    _seen.add(id(value))
+    n = 0
+    if isinstance(value, list):
+        for item in list(value):
+            n += scribble(item, _seen, _depth + 1)
+        value.append("@scribble")
+        return n + 1
+    if isinstance(value, dict):
+        for item in list(value.values()):
+            n += scribble(item, _seen, _depth + 1)
+        value["@scribble"] = "1"
+        return n + 1
+    if isinstance(value, tuple):
+        for item in value:
+            n += scribble(item, _seen, _depth + 1)
+        return n
+    if dataclasses.is_dataclass(value):
+        for f in dataclasses.fields(value):
+            n += scribble(getattr(value, f.name, None), _seen, _depth + 1)
+    return n
+
+
+CONFIG_SLOT = {"xp": 2, "jp": 1, "dd": 1, "xs": 2, "js": 1, "de": 1, "ts": 1}
+
+
+def reconfigure(env, key, cfg, how):
+    """The caller changes the configuration of a live tool; the tool is then filed under the key of
+    the configuration it now has. Returns the new key, or None when the tool does not exist."""
+    import dataclasses
+
+    tool = env.tools.get(key)
+    if tool is None:
+        return None
+    slot = CONFIG_SLOT[key[0]]
+    new_key = key[:slot] + (cfg,) + key[slot + 1 :]
+    fresh = parser_config(cfg) if key[0] in ("xp", "jp", "dd") else serializer_config(cfg)
+    if how == "replace":
+        tool.config = fresh
+    else:
+        for f in dataclasses.fields(fresh):
+            setattr(tool.config, f.name, getattr(fresh, f.name))
+    del env.tools[key]
+    env.tools[new_key] = tool
+    return new_key
+
+
+def execute(op, env, fault=None, post=None):
     """Run one operation and return its canonical record."""
     CAP.w = []
     CAP.l = []
@@ -254,6 +314,8 @@ def execute(op, env, fault=None):
         value = op.fn(env, FAULT_SLOT.f)
         rec["k"] = "ok"
         rec["v"] = canon(value)
+        if post is not None:
+            rec["post"] = post(value)
     except BaseException as e:  # InjectedInterrupt is a KeyboardInterrupt
         if isinstance(e, (SystemExit, GeneratorExit)) or (isinstance(e, KeyboardInterrupt) and not isinstance(e, InjectedInterrupt)):
             raise
@@ -331,6 +393,20 @@ def op_parse_xml_tree(docname, data, clazz_key, handler, needs, group):
         return p.parse(source, _resolve_clazz(clazz_key))
 
     return Op(f"parse_xml:{handler}:{docname}:treesrc", "parse_xml", fn, tool, needs, (), group, docname)
+
+
+def op_parse_xml_file(docname, relpath, clazz_key, handler, cfg, needs, group):
+    """The document is a file: the handlers open it themselves, and XInclude references in it are
+    resolved relative to its location."""
+    import pathlib
+
+    tool = ("xp", handler, cfg)
+    path = pathlib.Path(__file__).resolve().parent / "pool" / relpath
+
+    def fn(env, fault):
+        return env.tool(tool).from_path(path, _resolve_clazz(clazz_key))
+
+    return Op(f"parse_xml:{handler}:{docname}:{cfg}", "parse_xml", fn, tool, needs, (), group, docname)
 
 
 def op_user_parse(docname, data, clazz_key, handler, needs, group):
@@ -506,6 +582,10 @@ def build_ops(gen_docs=None):
         ops.append(op_tree_parse(name, data, "native", needs, g))
         for h in handlers:
             ops.append(op_parse_xml_tree(name, data, ck, h, needs, g))
+    for name, (relpath, ck, needs) in C.XML_FILES.items():
+        for h in handlers:
+            ops.append(op_parse_xml_file(name, relpath, ck, h, "xinclude", needs, group_of(ck)))
+            ops.append(op_parse_xml_file(name, relpath, ck, h, "default", needs, group_of(ck)))
     # documents that do not fit
     for name, (data, ck, needs) in C.BAD_XML.items():
         g = group_of(ck)
@@ -540,6 +620,13 @@ def build_ops(gen_docs=None):
         ops.append(op_ser_json(name, factory, "default", needs, g))
         ops.append(op_dict_encode(name, factory, "default", "dict", needs, g))
         ops.append(op_pycode(name, factory, needs, g))
+    for name, (factory, ck) in C.OBJS_GLOBALNS.items():
+        g = group_of(ck)
+        for w in ("lxml", "native"):
+            ops.append(op_ser_xml(name, factory, w, "globalns", "none", None, g))
+        ops.append(op_tree_ser(name, factory, "globalns", None, g))
+        ops.append(op_ser_json(name, factory, "globalns", None, g))
+        ops.append(op_dict_encode(name, factory, "globalns", "dict", None, g))
     # JSON
     for name, (text, ck, needs) in list(C.JSON.items()) + list(C.BAD_JSON.items()) + list(gen_docs["json"].items()):
         g = group_of(ck[5:] if ck and ck.startswith("list:") else ck)
@@ -562,10 +649,10 @@ def build_ops(gen_docs=None):
             ops.append(op_meta(ck, pns, None))
     # the class each operation is about (None for class-less lookups)
     doc_ck = {}
-    for table in (C.XML, C.BAD_XML, gen_docs["xml"], C.JSON, C.BAD_JSON, gen_docs["json"]):
+    for table in (C.XML, C.XML_FILES, C.BAD_XML, gen_docs["xml"], C.JSON, C.BAD_JSON, gen_docs["json"]):
         for name, (_, ck, _) in table.items():
             doc_ck[name] = ck
-    obj_ck = {name: ck for name, (_, ck) in C.OBJS.items()}
+    obj_ck = {name: ck for name, (_, ck) in list(C.OBJS.items()) + list(C.OBJS_GLOBALNS.items())}
     for op in ops:
         parts = op.name.split(":")
         if op.kind == "parse_xml":
